@@ -128,6 +128,7 @@ func (v *PacketDslVisitorImpl) VisitPacketDefinition(ctx *gen.PacketDefinitionCo
 	var fieldMap = make(map[string]*model.Field)
 	var lengthField *model.Field
 	var matchFields = make(map[string][]model.MatchPair)
+	var declLine = make(map[string]int) // first line of each field's declaration, for diagnostics
 	for _, fctx := range ctx.AllFieldDefinitionWithAttribute() {
 		if fc, ok := fctx.(*gen.FieldDefinitionWithAttributeContext); ok {
 			fd := v.VisitFieldDefinitionWithAttribute(fc)
@@ -168,10 +169,24 @@ func (v *PacketDslVisitorImpl) VisitPacketDefinition(ctx *gen.PacketDefinitionCo
 			}
 			fields = append(fields, fld)
 			fieldMap[fld.Name] = fld
+			declLine[fld.Name] = fctx.GetStart().GetLine()
 
 			if mf, ok := fld.Attr.(*model.MatchFieldAttribute); ok {
 				matchFields[mf.MatchKeyField.Name] = mf.MatchPairs
 			}
+		}
+	}
+
+	if lengthField != nil {
+		target := lengthField.Attr.(*model.LengthFieldAttribute).TragetField.Name
+		if _, ok := fieldMap[target]; !ok {
+			v.BinModel.AddSyntaxError(&model.SyntaxError{
+				Line:            lengthField.Line,
+				Column:          lengthField.Column,
+				Msg:             "Unknown length target field " + target + " for " + lengthField.Name,
+				OffendingSymbol: nil,
+			})
+			lengthField = nil
 		}
 	}
 
@@ -188,12 +203,23 @@ func (v *PacketDslVisitorImpl) VisitPacketDefinition(ctx *gen.PacketDefinitionCo
 				c.RefPacket = v.BinModel.PacketsMap[c.PacketName]
 			}
 		case *model.LengthFieldAttribute:
-			f.Attr = &model.LengthFieldAttribute{
-				LengthType:  f.GetType(),
-				TragetField: fieldMap[c.TragetField.Name],
+			if target, ok := fieldMap[c.TragetField.Name]; ok {
+				f.Attr = &model.LengthFieldAttribute{
+					LengthType:  f.GetType(),
+					TragetField: target,
+				}
 			}
 		case *model.MatchFieldAttribute:
-			c.MatchKeyField = fieldMap[c.MatchKeyField.Name]
+			if key, ok := fieldMap[c.MatchKeyField.Name]; ok {
+				c.MatchKeyField = key
+			} else {
+				v.BinModel.AddSyntaxError(&model.SyntaxError{
+					Line:            declLine[f.Name],
+					Column:          f.Column,
+					Msg:             "Unknown match key field " + c.MatchKeyField.Name + " for match field " + f.Name,
+					OffendingSymbol: nil,
+				})
+			}
 
 		}
 	}
